@@ -19,7 +19,7 @@ Import ListNotations.
 From Stam Require Import Model.Conc.
 
 Definition in_store (i : nat) (k : fkind) : tok :=
-  match k with NoFile => t_inline i | Txt | Json => t_include i end.
+  match k with NoFile => t_inline i | Txt | Json | JsonBroken => t_include i end.
 
 Fixpoint store_form (i : nat) (mem : list fkind) : list tok :=
   match mem with
@@ -34,8 +34,36 @@ Definition spec_out (mem : list fkind) (o : op) : list tok :=
   | OpMemberTrait i => [t_inline i]
   | OpMemberPlain i => [in_store i (kind_of mem i)]
   | OpMemberForeign i => [t_inline i]
-  | OpMemberThenStore i => t_inline i :: store_form 0 mem
+  | OpMemberThenStore i => t_inline i :: t_sep :: store_form 0 mem ++ [t_sep]
+  | OpStoreTwice => store_form 0 mem ++ t_sep :: store_form 0 mem ++ [t_sep]
   end.
+
+(* Stores with a stand-off file that cannot be written.  A call that has to rewrite such a file
+   (the member is changed and is being written as @include) returns Err, every time it is made:
+   a failed call leaves nothing behind that changes what a later call returns. *)
+Fixpoint store_fails (i : nat) (mem : list fkind) (chg : list bool) : bool :=
+  match mem with
+  | [] => false
+  | k :: r => (match k with JsonBroken => flag i chg | _ => false end) || store_fails (S i) r chg
+  end.
+
+Definition member_fails (mem : list fkind) (chg : list bool) (i : nat) : bool :=
+  match kind_of mem i with JsonBroken => flag i chg | _ => false end.
+
+Definition call_store (mem : list fkind) (chg : list bool) : list tok :=
+  if store_fails 0 mem chg then [t_err] else store_form 0 mem.
+
+Definition spec_result (mem : list fkind) (chg : list bool) (o : op) : list tok :=
+  match o with
+  | OpStore => call_store mem chg
+  | OpMemberPlain i => if member_fails mem chg i then [t_err] else spec_out mem o
+  | OpMemberThenStore i => t_inline i :: t_sep :: call_store mem chg ++ [t_sep]
+  | OpStoreTwice => call_store mem chg ++ t_sep :: call_store mem chg ++ [t_sep]
+  | _ => spec_out mem o
+  end.
+
+Definition writable (mem : list fkind) : bool :=
+  forallb (fun k => match k with JsonBroken => false | _ => true end) mem.
 
 (* the property for one run: every thread that has finished holds its solo result *)
 Definition solo_results (mem : list fkind) (os : list op) (ts : list thread) : Prop :=
